@@ -3055,6 +3055,16 @@ def model_case(rng, tier):
             d, r, c = count, (r - fr) // sr + 1, (c - fc) // sc + 1
     lr = rng.choice([0.1, 0.5, 0.01, 1.0]) if not (big or huge) else rng.choice([0.01, 0.05])
     ins = [("model", layers, cost, lr)]
+    # fine-tuning: some layers frozen (stop_tracking on their parameters through Layer::parameters() before the
+    # model is built), at least the last one trained.  The program DSL of the Coq model has no such instruction, so
+    # these programs are run through corgi only and judged by the reference predicates (frozen parameters stay
+    # as they are, the others step along the gradient of the current loss)
+    frozen = None
+    if len(layers) >= 2 and not (big or huge) and rng.random() < 0.12:
+        frozen = [rng.random() < 0.6 for _ in layers[:-1]] + [False]
+        if not any(frozen):
+            frozen[0] = True
+        ins.append(("mfreeze", [1 if f else 0 for f in frozen]))
     params0 = []
     for l in layers:
         params0 += [list(l[4]), list(l[5])]
@@ -3065,8 +3075,9 @@ def model_case(rng, tier):
     # (unbatched / different batch sizes, any order) in the other half
     fixed = rng.choice(batches)
     vary = rng.random() < 0.5
-    meta = {"layers": layers, "cost": cost, "lr": lr, "iters": []}
+    meta = {"layers": layers, "cost": cost, "lr": lr, "iters": [], "frozen": frozen}
     ins.append(("params",))
+    meta["params0"] = len(ins) - 1
     shapes_seen = []
     for it in range(iters):
         batch = rng.choice(batches) if vary else fixed
@@ -3155,6 +3166,9 @@ def model_case(rng, tier):
     c = case("model", ins, "%s:%s:%s" % (kind, cost, "varying_batches" if vary and len(set(shapes_seen)) > 1
                                          else "batch_" + shapes_seen[0]), rtol=1e-7)
     c["model_meta"] = meta
+    if frozen:
+        c["skip_model"] = True
+        c["cls"] = "%s:%s:frozen_layers" % (kind, cost)
     if huge:
         c["skip_model"] = True
         c["cls"] = "dense:%s:over_1000_parameters" % cost
@@ -3196,7 +3210,7 @@ def post_formulas(cases, rust, model):
         if not meta or any(o in ("panic", "timeout", "crash", "nohook") for o in r):
             continue
         layers = [tuple(l) for l in meta["layers"]]
-        pidx = 1
+        pidx = meta.get("params0", 1)
         for it in meta["iters"]:
             params = [p[2] for p in obs_params(r[pidx])]
             info = {}
@@ -3231,7 +3245,7 @@ def post_train_step(cases, rust, model):
         if not meta or any(o in ("panic", "timeout", "crash", "nohook") for o in r):
             continue
         layers = [tuple(l) for l in meta["layers"]]
-        pidx = 1
+        pidx = meta.get("params0", 1)
         for it in meta["iters"]:
             before = obs_params(r[pidx])
             after = obs_params(r[it["params_after"]])
@@ -3275,7 +3289,15 @@ def post_train_step(cases, rust, model):
                     fails.append({"case": i, "confirmed": True, "reason": bad})
                     break
                 continue
+            frozen_layers = meta.get("frozen") or []
             for pj in range(len(params)):
+                if pj // 2 < len(frozen_layers) and frozen_layers[pj // 2]:
+                    # a frozen layer (stop_tracking on its parameters before the model was built): untouched
+                    if after[pj][:3] != before[pj][:3] or after[pj][0] != 0 or after[pj][3]:
+                        bad = "parameter %d belongs to a frozen layer and must stay as it is (untracked, same values, " \
+                              "no gradient); before %s, after %s" % (pj, before[pj], after[pj])
+                        break
+                    continue
                 if after[pj][1] != before[pj][1] or after[pj][0] != 1 or after[pj][3]:
                     bad = "parameter %d after the update: tracked=%s dims %s gradient present=%s" % (
                         pj, after[pj][0], after[pj][1], after[pj][3])
@@ -3297,7 +3319,9 @@ def post_train_step(cases, rust, model):
                     g = (l1 - l2) / (2 * hstep)
                     step = after[pj][2][e] - before[pj][2][e]
                     want = -meta["lr"] * mult * g
-                    if abs(step - want) > 1e-5 * (1.0 + abs(want)) + 1e-7:
+                    # the central difference itself carries the rounding error of the two losses divided by 2h
+                    fd_noise = meta["lr"] * mult * 50 * 2.3e-16 * max(abs(l1), abs(l2)) / hstep
+                    if abs(step - want) > 1e-5 * (1.0 + abs(want)) + 1e-7 + fd_noise:
                         bad = "parameter %d element %d moved by %r; -lr * dLoss/dtheta at the current parameters is %r" % (pj, e, step, want)
                         break
                 if bad:
